@@ -151,6 +151,17 @@ def search(ctx):
                 vios.append({"input": {"command": cmd, "config": "", "cwd": CWD}, "observed": {"verdict": d.action, "reason": d.reason, "program_bash_runs": real}, "required": "program on no table, no rule, not a help/version query: never allow", "oracle": "unknown-asks"})
         if len(samples) < 3:
             samples.append({"command": cmd, "program_bash_runs": real, "verdict": d.action})
+        # a shell function of the same name that is NOT in effect when the command runs (defined later, behind a
+        # short-circuit, in a subshell) does not make the external program known
+        if real is not None and real == name and name.replace("_", "a").isalnum() and not name[0].isdigit() and real not in tables and not help_shape([real] + args) and r.chance(0.3):
+            form = r.pick(["{c}; {n}() {{ echo done; }}", "true || {n}() {{ echo hi; }}; {c}", "false && {n}() {{ echo hi; }}; {c}", "{c} | cat; function {n} {{ echo done; }}",
+                           "( {n}() {{ echo sub; }} ); {c}", "{c}\n{n}() {{ echo later; }}", "{n}x() {{ echo other; }}; {c}"])
+            text = form.format(c=cmd, n=name)
+            d2 = analyze(text, cfg, Path(CWD))
+            stats["evaluations"] += 1
+            stats["function_context_probes"] += 1
+            if d2.action == "allow":
+                vios.append({"input": {"command": text, "config": "", "cwd": CWD}, "observed": {"verdict": d2.action, "reason": d2.reason, "program_bash_runs": real}, "required": "a function definition that is not in effect does not make an unknown program known: never allow", "oracle": "unknown-asks"})
         if len(vios) >= 5:
             break
     # the always-safe list must not contain a program that runs its arguments (table obligation
